@@ -330,6 +330,12 @@ is_standard_layout() const {
  */
 bool CPPStructType::
 is_trivial() const {
+  static std::set<const CPPStructType *> active;
+  TraitRecursionGuard guard(active, this);
+  if (!guard.entered()) {
+    return false;
+  }
+
   // Make sure all base classes are trivial and non-virtual.
   Derivation::const_iterator di;
   for (di = _derivation.begin(); di != _derivation.end(); ++di) {
@@ -420,6 +426,12 @@ is_trivial() const {
  */
 bool CPPStructType::
 is_trivially_copyable() const {
+  static std::set<const CPPStructType *> active;
+  TraitRecursionGuard guard(active, this);
+  if (!guard.entered()) {
+    return false;
+  }
+
   // Make sure all base classes are trivially copyable and non-virtual.
   Derivation::const_iterator di;
   for (di = _derivation.begin(); di != _derivation.end(); ++di) {
